@@ -34,7 +34,7 @@ func genC18(t *rapid.T) c18Case {
 	c.Key = "K3y" + rapid.StringMatching(`[A-Za-z0-9]{16}`).Draw(t, "key_token")
 	c.Scripts, c.Order = genAuthHistory(t, c.World, c.Scope, 3)
 	c.Level = rapid.SampledFrom([]int{0, 10, 20, 30, 30, 31, 100}).Draw(t, "log_level")
-	c.Broken = rapid.SampledFrom([]string{"", "", "", "not json", "[\"10.7.0.0/16\", ]", "[]"}).Draw(t, "broken_scope")
+	c.Broken = rapid.SampledFrom([]string{"", "", "", "not json", "[\"10.7.0.0/16\", ]", "[]", "[\"10.7.0.0/16\", \"10.20.30.40\"]", "[\"not-a-prefix\", \"10.7.0.0/16\"]"}).Draw(t, "broken_scope")
 	// make every presented password a searchable token: wrong passwords become unique strings
 	for i := range c.Scripts {
 		for j := range c.Scripts[i].Pkts {
